@@ -31,10 +31,34 @@
       the slice) behave correctly (`example`s, tests only).  Universal facts about the mechanism:
         sliceInsert_in_place (an in-place `insert` rewrites the shared array under every other slice),
         copySlice_fresh      (the repaired split case owns a new array that no old slice can reach).
-      NOT proved: a universal refinement theorem heap-model ⇒ abstract machine (neither for `put` — false —
-      nor for `putFixed`); that link is covered by the correspondence sweep + the Go-side oracle only.
+      For the OLD `put` no refinement theorem exists (it is false).
+
+  (c) For the heap model with the REPAIRED put (`putG true` = `putTopFixed`, what /repo runs since fb6e64c: the
+      split case uses child.Clone()): the universal refinement heap model ⇒ abstract machine, section (c) below.
+        heap_inv_init, heap_inv_step      — the invariant `HRel` (memory ownership `HOk`: every backing array is
+                                            referenced by at most one node; + `Rel`: radix well-formedness for
+                                            fixed-length keys, ghost reach sets closed under children, "a block that
+                                            is a leaf owns the nodes dyed with its height that it can see", every
+                                            root's lookups = the abstract table) holds initially and is preserved by
+                                            SetBlock, Put (`putTopFixed`), Get (`getTop` incl. the in-place read-through
+                                            `insert`) and the stabilisation step; no operation panics or gets stuck
+        heap_view_refines                 — under `HRel` the view of every label through the heap is `specView`
+        heap_put_isolated                 — after a Put the writer reads its value, every other (label, key) is unchanged
+        heap_get_is_pure                  — a Get returns `specView` and changes no view of any label for any key,
+                                            although its read-through insert mutates shared nodes in place
+        heap_stable_refines               — the stabilisation step keeps the survivors' views; persisted = view(l)
+        heap_run_refines                  — induction over arbitrary operation sequences from the initial state
+        CowHeapL.setBlock_is_hSetBlock, putAcct_is_hPut, getAcct_is_hGet (Lemmas/CowHeapUTree.lean)
+                                          — `setBlock`, `putAcct true`, `getAcct` of the DRIVER's model `LemoModel.UTree`
+                                            are exactly these heap-level operations (same heap, same roots)
+      Lemma files: Lemmas/CowHeap*.lean (logical heap machine, array-level simulation, local analysis, insert, put,
+      multi-root relation).  NOT linked by proof: `collected` (Collect on the heap = entries dyed h of the table) and
+      the `walk`-based pruning / label bookkeeping of `LemoModel.UTree` — in (c) the set of surviving blocks, the
+      guards, the writer's height and the persisted values are taken from the abstract machine.
 -/
 import LemoProofs.Lemmas.CowSpecPrune
+import LemoProofs.Lemmas.CowHeapTop
+import LemoProofs.Lemmas.CowHeapUTree
 import LemoModel.UTree
 namespace LemoProofs.C09
 open LemoModel.CowSpec LemoProofs.CowSpecL
@@ -337,5 +361,122 @@ theorem copySlice_fresh (h : Heap) (a len : Nat) (hl : 0 < len) :
     simp [cellsOf, List.getElem?_append_left ha']
 
 end Heap
+
+/-! ## (c) the heap model with the repaired `put` refines the abstract machine -/
+
+section HeapRefinement
+open LemoModel.CowTrie LemoProofs.CowHeapL
+
+variable {L : Nat} {E : Enc L}
+
+/-- the refinement invariant holds in the freshly opened database -/
+theorem heap_inv_init (E : Enc L) (sl sh : Nat) (disk : Nat → Option Nat) : HRel E hinit (init sl sh disk) :=
+  hrel_init E sl sh disk
+
+/-- **every operation preserves the invariant and succeeds** (never a Go panic / stuck state): SetBlock, Put through
+    `putTopFixed` (guards as in `aPut`), Get through `getTop` (with the in-place read-through `insert`; the ghost
+    `sharers` are the labels whose view gains the cached entry), one commit step of SetStableBlock -/
+theorem heap_inv_step {s : HSt} {a : ASt} (hr : HRel E s a) (cop : COp) :
+    ∃ s' sharers, hstep E s a cop = some s' ∧ HRel E s' (stepOp a (cop.fill sharers)) :=
+  hstep_refines hr cop
+
+theorem cinv_of {s : HSt} {a : ASt} (hr : HRel E s a) : CInv a := by
+  obtain ⟨_, _, _, h⟩ := hr; exact h.inv
+
+/-- **heap_view_refines**: what `Get` returns through the trie of ANY label (`GetTrie().Find` on the heap, else the
+    persisted value) is the specified view -/
+theorem heap_view_refines {s : HSt} {a : ASt} (hr : HRel E s a) (l k : Nat) :
+    peekTop s.heap (s.rootOf l) (E.enc k) ((a.disk k).map (dataK k)) = .ok ((specView a l k).map (dataK k)) := by
+  rw [hrel_peek hr l k, get_refines (cinv_of hr) l k]
+
+/-- **heap_put_isolated**: a (guarded) Put through the heap succeeds, keeps the invariant, the writer then reads its
+    value and every other (label, key) — siblings, ancestors, other forks, the stable block — reads what it read before -/
+theorem heap_put_isolated {s : HSt} {a a' : ASt} (hr : HRel E s a) {l k v : Nat} {b : ABlk}
+    (hs : aPut a l k v = some a') (hb : findB a.blocks l = some b) :
+    ∃ s', hPut E s l k v b.height = some s' ∧ HRel E s' a' ∧
+      peekTop s'.heap (s'.rootOf l) (E.enc k) ((a'.disk k).map (dataK k)) = .ok (some (dataK k v)) ∧
+      ∀ x k', (x ≠ l ∨ k' ≠ k) →
+        peekTop s'.heap (s'.rootOf x) (E.enc k') ((a'.disk k').map (dataK k')) =
+        peekTop s.heap (s.rootOf x) (E.enc k') ((a.disk k').map (dataK k')) := by
+  obtain ⟨s', q1, q2⟩ := hrel_put hr hs hb
+  obtain ⟨p1, p2⟩ := put_isolated (cinv_of hr) hs
+  refine ⟨s', q1, q2, ?_, ?_⟩
+  · rw [hrel_peek q2 l k, p1]; rfl
+  · intro x k' hne
+    rw [hrel_peek q2 x k', hrel_peek hr x k', p2 x k' hne]
+
+/-- **heap_get_is_pure**: a Get through the heap succeeds, returns the specified view, keeps the invariant (for some
+    sharer set) and — although its read-through `insert` mutates shared nodes in place — no label reads anything
+    different for any key afterwards -/
+theorem heap_get_is_pure {s : HSt} {a : ASt} (hr : HRel E s a) (l k : Nat) :
+    ∃ s' sharers, hGet E s l k (a.disk k) = some (s', specView a l k) ∧ HRel E s' (aGet a l k sharers).1 ∧
+      (aGet a l k sharers).1.disk = a.disk ∧
+      ∀ x k', peekTop s'.heap (s'.rootOf x) (E.enc k') ((a.disk k').map (dataK k')) =
+              peekTop s.heap (s.rootOf x) (E.enc k') ((a.disk k').map (dataK k')) := by
+  obtain ⟨s', sharers, q1, q2⟩ := hrel_get hr l k
+  have hdisk : (aGet a l k sharers).1.disk = a.disk := by
+    unfold aGet
+    split
+    · rfl
+    · exact (cache_fold_frame a k (l :: sharers)).1
+  refine ⟨s', sharers, by rw [q1, get_returns_view (cinv_of hr)], q2, hdisk, ?_⟩
+  intro x k'
+  have := hrel_peek q2 x k'
+  rw [hdisk] at this
+  rw [this, hrel_peek hr x k', get_is_pure (cinv_of hr)]
+
+/-- **heap_stable_refines**: the stabilisation step on the heap (no heap change; the roots of the pruned blocks are
+    dropped, LastConfirm's root becomes `l`'s) keeps the invariant, every surviving block reads what it read before,
+    and the persisted accounts are the view of `l` -/
+theorem heap_stable_refines {s : HSt} {a a' : ASt} (hr : HRel E s a) {l : Nat} (hs : aStable a l = some a') :
+    HRel E (hStable s a' l) a' ∧
+    (∀ x ∈ a'.blocks, ∀ k,
+      peekTop (hStable s a' l).heap ((hStable s a' l).rootOf x.label) (E.enc k) ((a'.disk k).map (dataK k)) =
+      peekTop s.heap (s.rootOf x.label) (E.enc k) ((a.disk k).map (dataK k))) ∧
+    (∀ k, (a'.disk k).map (dataK k) = (specView a l k).map (dataK k)) := by
+  have q := hrel_stable hr hs
+  obtain ⟨_, _, _, p3, p4⟩ := prune_exact (cinv_of hr) hs
+  refine ⟨q, ?_, ?_⟩
+  · intro x hx k
+    rw [hrel_peek q x.label k, hrel_peek hr x.label k, p3 x hx k]
+  · intro k; rw [p4 k, get_refines (cinv_of hr)]
+
+/-- **heap_run_refines**: for every sequence of heap-level operations from the freshly opened database there are
+    sharer sets for its reads such that the heap run succeeds, ends in a state related to the abstract run, and
+    every label's view through the heap is the specification `specView` of the abstract run (so `get_refines`,
+    `put_refines`, `collect_exact`, `prune_exact` of section (a) speak about the tables the heap realises) -/
+theorem heap_run_refines (E : Enc L) (sl sh : Nat) (disk : Nat → Option Nat) (cops : List COp) :
+    ∃ ops, ops.map eraseOp = cops ∧ ∃ s', hrun E hinit (init sl sh disk) ops = some s' ∧
+      HRel E s' (run (init sl sh disk) ops) ∧
+      ∀ l k, peekTop s'.heap (s'.rootOf l) (E.enc k) (((run (init sl sh disk) ops).disk k).map (dataK k)) =
+        .ok ((specView (run (init sl sh disk) ops) l k).map (dataK k)) := by
+  obtain ⟨ops, e1, s', e2, e3⟩ := hrun_refines cops (hrel_init E sl sh disk)
+  exact ⟨ops, e1, s', e2, e3, fun l k => heap_view_refines e3 l k⟩
+
+/-! non-vacuity: a concrete fixed-length encoding, and the demo run of section (a) replayed on the heap -/
+
+def encDemo : Enc 3 where
+  enc := fun k => [k / 100 % 10, k / 10 % 10, k % 10 + 20 * (k / 1000)]
+  inj := by
+    intro a b h
+    simp only [List.cons.injEq, and_true] at h
+    omega
+  len := fun _ => rfl
+  pos := by decide
+
+/-- the hypotheses are satisfiable: the invariant holds initially, and along the demo run of section (a) -/
+example : HRel encDemo hinit (init 0 0 (fun k => if k = 7 then some 100 else none)) := heap_inv_init _ _ _ _
+
+example : ∃ ops, ops.map eraseOp = [.setBlock 1 0 1, .setBlock 2 0 1, .get 2 7, .put 1 7 5, .setBlock 3 1 2] ∧
+    ∃ s', hrun encDemo hinit (init 0 0 (fun k => if k = 7 then some 100 else none)) ops = some s' := by
+  obtain ⟨ops, h1, s', h2, _⟩ := heap_run_refines encDemo 0 0 (fun k => if k = 7 then some 100 else none)
+    [.setBlock 1 0 1, .setBlock 2 0 1, .get 2 7, .put 1 7 5, .setBlock 3 1 2]
+  exact ⟨ops, h1, s', h2⟩
+
+/-- the heap machine really runs (kernel evaluation): the demo run with the sharer set of section (a) -/
+example : (hrun encDemo hinit (init 0 0 (fun k => if k = 7 then some 100 else none))
+    [.setBlock 1 0 1, .setBlock 2 0 1, .get 2 7 [1], .put 1 7 5, .setBlock 3 1 2]).isSome = true := by decide
+
+end HeapRefinement
 
 end LemoProofs.C09
